@@ -39,9 +39,8 @@ META = {
                   'raw non-ASCII bytes in the query string, a Content-Length that contradicts the body, short reads of '
                   'wsgi.input (C07), an unknown peer, the cookies= / json= / params= conveniences of the test client. '
                   'For a request with an invalid Content-Length what reading the body yields is not compared (a server '
-                  'must reject such framing). Trusted: TLC, engine/drivers.py, CPython codecs, http.cookies. Leg B does '
-                  'not drive client->ASGI when the Host field differs from the host argument (finding F11 is exercised '
-                  'and signed in leg A).',
+                  'must reject such framing). Trusted: TLC, engine/drivers.py, CPython codecs, http.cookies. The WSGI test client is not driven for a '
+                  '204/304 whose responder sets a Content-Type (wsgiref.validate refuses the response: ServerIface!Reportable).',
 }
 
 from engine import drivers
@@ -58,9 +57,6 @@ ATTRS = ['method', 'path', 'query_string', 'params', 'cookies', 'content_type', 
          'client_accepts_msgpack', 'uri_template', 'is_websocket', 'date', 'if_modified_since', 'if_unmodified_since']
 HEADER_PROBES = ['x-foo', 'Accept', 'HOST', 'content-type', 'Content-Length', 'cookie', 'X-Latin', 'x-absent']
 PARAM_PROBES = ['a', 'b', 'c', 'q', 'x', 'absent']
-# attributes whose value is derived from the Host field (finding F11 touches exactly these)
-HOST_FAMILY = {'headers', 'headers_lower', 'host', 'port', 'netloc', 'uri', 'url', 'prefix', 'forwarded_host',
-               'forwarded_uri', 'forwarded_prefix', 'subdomain', 'get_header:HOST'}
 
 
 def val(x):
@@ -133,6 +129,7 @@ class Logic:
 
     def __init__(self):
         self.kind = 'echo'
+        self.plain = None       # [status, source, ctype] of a "plain" responder
         self.seen = []
 
     def respond(self, req, resp, body, media, where, params, make_stream):
@@ -144,7 +141,21 @@ class Logic:
         d['media'] = media
         self.seen.append(d)
         k = self.kind
-        if k in ('echo', 'media'):
+        if k == 'plain':
+            p = self.plain
+            resp.status = p['status']
+            if p['source'] == 'text':
+                resp.text = 'héllo ' + req.method
+            elif p['source'] == 'data':
+                resp.data = b'\x00\xffabc'
+            elif p['source'] == 'media':
+                resp.media = {'a': [1, 'é'], 'm': req.method}
+            elif p['source'] == 'stream':
+                resp.stream = make_stream([b'ab', b'', b'cde'])
+            if p['ctype']:
+                # resp.media is rendered by the handler of the response content type: keep it a JSON type
+                resp.content_type = 'application/json; v=1' if p['source'] == 'media' else 'text/x-custom; v=1'
+        elif k in ('echo', 'media'):
             resp.media = {'path': req.path, 'method': req.method, 'q': req.query_string}
             resp.set_header('X-Seen', 'yes')
         elif k == 'text':
@@ -368,9 +379,10 @@ def observe(iface, logic, wapp, aapp, rq, cargs):
     return o
 
 
-def observe_all(rq_json, cargs_json, opts, kind, expressible):
+def observe_all(rq_json, cargs_json, opts, kind, expressible, plain=None):
     logic, wapp, aapp = apps_for(opts)
     logic.kind = kind
+    logic.plain = plain
     rq = to_wire(rq_json)
     obs = {}
     for iface in IFACES:
@@ -435,33 +447,24 @@ FIELD_ATTRS = {'hmap': 'headers', 'query': 'query_string', 'ctype': 'content_typ
                'clen': 'content_length', 'root': 'root_path', 'peer': 'remote_addr'}
 
 
-def host_differs(case_client):
-    """structural: does the caller-supplied Host field differ from what host/port/protocol arguments stand for?"""
-    c = case_client
-    dflt = 443 if c['protocol'] == 'https' else 80
-    auth = L1(c['host']) + ('' if c['port'] == dflt else ':%d' % c['port'])
-    vals = [L1(h['v']) for h in c['headers'] if L1(h['n']).lower() == 'host']
-    return bool(vals) and c['http_version'] != '1.0' and any(v != auth for v in vals)
-
-
-F11_SIG = {'finding': 'F11', 'iface': 'client-asgi', 'input': 'caller-supplied Host header differs from the host argument',
-           'fields': 'host-derived only'}
+def _resp_brief(o):
+    return {'status': o['proj']['status'], 'headers': o['raw']['headers'] if o['raw'] else o['proj']['headers'],
+            'body_len': len(o['proj']['body'])}
 
 
 def check_case(ctx, case, origin):
     """One TLC-generated case: drive, compare.  Returns the observations."""
     expr = {'raw-wsgi': case['expressible']['raw_wsgi'], 'raw-asgi': case['expressible']['raw_asgi'],
             'client-wsgi': case['expressible']['client_wsgi'], 'client-asgi': case['expressible']['client_asgi']}
-    obs = observe_all(case['req'], case['client'], case['opts'], case['kind'], expr)
-    brief = {'origin': origin, 'req': case['req'], 'opts': case['opts'], 'kind': case['kind'],
+    obs = observe_all(case['req'], case['client'], case['opts'], case['kind'], expr, case.get('resp'))
+    brief = {'origin': origin, 'req': case['req'], 'opts': case['opts'], 'kind': case['kind'], 'resp': case.get('resp'),
              'client': case['client'], 'expressible': case['expressible'], 'canonical': case['canonical'],
              'expected': case['expected'], 'status': case['status']}
     rq = case['req']
     nontrivial = (len({L1(h['n']).lower() for h in rq['headers']}) < len(rq['headers'])
                   or any(L1(h['n']) not in (L1(h['n']).lower(), L1(h['n']).title()) for h in rq['headers'])
                   or any(b > 127 or b == 37 for b in rq['target']) or len(rq['chunks']) > 0)
-    ctx.case(brief, nontrivial=nontrivial, key=digest([rq, case['opts'], case['kind']]))
-    f11 = host_differs(case['client'])
+    ctx.case(brief, nontrivial=nontrivial, key=digest([rq, case['opts'], case['kind'], case.get('resp')]))
     base = None
     for iface in IFACES:
         if iface not in obs:
@@ -499,12 +502,11 @@ def check_case(ctx, case, origin):
         if bad_attrs:
             what = '%s differs (from %s / the specification) in %s' % (iface, base[0], sorted(bad_attrs))
             detail = {k: [base[1]['digest'].get(k) if base[1]['digest'] else None, dg.get(k)] for k in sorted(bad_attrs) if k in dg}
-            if f11 and iface == 'client-asgi' and bad_attrs <= HOST_FAMILY:
-                ctx.violation('P:equal-request', brief, what + ' ' + canon(detail)[:400], signature=F11_SIG)
-            else:
-                clause = 'P:equal-response' if bad_attrs <= {'response', 'raw-response'} else \
-                    'P:status' if bad_attrs == {'status'} else 'P:equal-request'
-                ctx.violation(clause, brief, what + ' ' + canon(detail)[:600])
+            clause = 'P:equal-response' if bad_attrs <= {'response', 'raw-response'} else \
+                'P:status' if bad_attrs == {'status'} else 'P:equal-request'
+            if 'response' in bad_attrs or 'raw-response' in bad_attrs:
+                detail['response'] = [_resp_brief(base[1]), _resp_brief(o)]
+            ctx.violation(clause, brief, what + ' ' + canon(detail)[:700])
     return obs
 
 
@@ -647,11 +649,32 @@ def random_request(rng):
             hv = name + ':%d' % port       # explicit port even when it is the default
         hf = [recase(rng, 'Host'), hv]
         headers.insert(rng.randint(0, len(headers)), hf)
+    # forwarding chains relative to the request's own peer address: absent, last, first, middle, twice, alone
+    peer = '%d.%d.%d.%d' % tuple(rng.randrange(1, 255) for _ in range(4))
+    if rng.random() < 0.45:
+        others = ['203.0.113.7', '198.51.100.2', '10.0.0.%d' % rng.randrange(1, 9), 'unknown']
+        shape = rng.choice(['absent', 'last', 'first', 'middle', 'twice', 'alone', 'random'])
+        o = lambda: rng.choice(others)
+        chain = {'absent': [o(), o()], 'last': [o(), peer], 'first': [peer, o()], 'middle': [o(), peer, o()],
+                 'twice': [peer, o(), peer], 'alone': [peer],
+                 'random': [rng.choice(others + [peer]) for _ in range(rng.randint(1, 5))]}[shape]
+        t = rng.random()
+        if t < 0.5:
+            fields = [['X-Forwarded-For', (', ' if rng.random() < 0.7 else ',').join(chain)]]
+            if rng.random() < 0.2 and len(chain) > 1:      # the same chain sent as two field lines
+                k = rng.randint(1, len(chain) - 1)
+                fields = [['X-Forwarded-For', ', '.join(chain[:k])], ['X-Forwarded-For', ', '.join(chain[k:])]]
+        elif t < 0.85:
+            fields = [['Forwarded', ', '.join(('for=%s' % a) + rng.choice(['', ';proto=https', ';by=9.9.9.9']) for a in chain)]]
+        else:
+            fields = [['X-Real-IP', chain[0]]]
+        for n, v in fields:
+            headers.append([recase(rng, n), v])
     return {'method': rng.choice(['GET', 'GET', 'POST', 'PUT', 'DELETE', 'PATCH', 'HEAD', 'OPTIONS']),
             'target': B(target),
             'query': B(query), 'headers': [{'n': B(n), 'v': B(v)} for n, v in headers], 'body': B(body), 'chunks': chunks,
             'scheme': scheme, 'server': {'name': B(name), 'port': port}, 'root': B(rng.choice(['', '', '/app', '/a/b'])),
-            'peer': B('%d.%d.%d.%d' % tuple(rng.randrange(1, 255) for _ in range(4))), 'version': version}
+            'peer': B(peer), 'version': version}
 
 
 KINDS = ['echo', 'text', 'data', 'stream', 'error', 'notfound', 'redirect', 'status', 'nocontent', 'uncaught',
@@ -710,7 +733,7 @@ def run(ctx):
                        'without "_", truthful Content-Length, Host values name[:digits])']
 
     # ---- leg M: the design -----------------------------------------------------------------------
-    acts = ['Start', 'SetTarget', 'SetQuery', 'AddHeader', 'EndHeaders', 'SetBody', 'SetEndpoint', 'Send']
+    acts = ['Start', 'SetResponder', 'SetTarget', 'SetQuery', 'AddHeader', 'EndHeaders', 'SetBody', 'SetEndpoint', 'SetForwarding', 'Send']
     if ctx.quick:
         r = ctx.tlc('MC_ServerIface', 'MC_ServerIfaceQ.cfg', coverage=True, workers=8, timeout=600)
         ctx.require_coverage(r, acts)
@@ -727,9 +750,9 @@ def run(ctx):
     ctx.progress('leg M done')
 
     # ---- leg A: TLC-generated cases --------------------------------------------------------------
-    rs = ctx.tlc('MC_ServerIface', 'MC_ServerIfaceSim.cfg', simulate={'num': ctx.pick(700, 6500)}, depth=12,
+    rs = ctx.tlc('MC_ServerIface', 'MC_ServerIfaceSim.cfg', simulate={'num': ctx.pick(700, 6500)}, depth=14,
                  seed=ctx.seed + 1, workers=4, timeout=900, count=False)
-    cases = {digest([c['req'], c['opts'], c['kind']]): c for c in rs.json}
+    cases = {digest([c['req'], c['opts'], c['kind'], c['resp']]): c for c in rs.json}
     cases = list(cases.values())[:ctx.pick(2600, 24000)]
     ctx.progress('leg A: %d distinct cases from TLC' % len(cases))
     n4 = 0
@@ -751,19 +774,22 @@ def run(ctx):
         rq = random_request(rng)
         opts = {'strip': rng.random() < 0.5, 'keep_blank': rng.random() < 0.5, 'csv': rng.random() < 0.5}
         kind = rng.choice(KINDS)
+        plain = {'status': 200, 'source': 'none', 'ctype': False}
+        if rng.random() < 0.5:
+            kind = 'plain'
+            plain = {'status': rng.choice([200, 201, 204, 304, 101, 100, 205, 404]),
+                     'source': rng.choice(['none', 'text', 'data', 'media', 'stream']), 'ctype': rng.random() < 0.4}
         cj = harness_client_args(rq)
         # the drivers are run wherever the harness can form the call; TLC (Expressible) decides which events count
         can = {'raw-wsgi': True, 'raw-asgi': True, 'client-wsgi': cj is not None, 'client-asgi': cj is not None}
-        if cj is not None and host_differs(cj):
-            can['client-asgi'] = False           # finding F11, exercised and signed in leg A
-        obs = observe_all(rq, cj, opts, kind, can)
+        obs = observe_all(rq, cj, opts, kind, can, plain)
         evs = [event_of(iface, obs[iface]) for iface in IFACES if iface in obs]
-        trace = {'req': rq, 'opts': opts, 'kind': kind, 'ev': evs}
+        trace = {'req': rq, 'opts': opts, 'kind': kind, 'resp': plain, 'ev': evs}
         nontrivial = (len({L1(h['n']).lower() for h in rq['headers']}) < len(rq['headers'])
                       or any(L1(h['n']) not in (L1(h['n']).lower(), L1(h['n']).title()) for h in rq['headers'])
                       or any(b > 127 or b == 37 for b in rq['target']) or len(rq['chunks']) > 0)
-        brief = {'origin': 'random', 'req': rq, 'opts': opts, 'kind': kind, 'drivers': [e['iface'] for e in evs]}
-        ctx.case(brief, nontrivial=nontrivial, key=digest([rq, opts, kind]))
+        brief = {'origin': 'random', 'req': rq, 'opts': opts, 'kind': kind, 'resp': plain, 'drivers': [e['iface'] for e in evs]}
+        ctx.case(brief, nontrivial=nontrivial, key=digest([rq, opts, kind, plain]))
         traces.append(trace)
         briefs.append((brief, {i: o['exc'] for i, o in obs.items()}))
     ctx.progress('leg B: %d traces recorded' % len(traces))
@@ -790,8 +816,8 @@ def replay(ctx, case):
     else:
         cj = harness_client_args(c['req'])
         can = {i: (i in c['drivers']) for i in IFACES}
-        obs = observe_all(c['req'], cj, c['opts'], c['kind'], can)
-        tr = {'req': c['req'], 'opts': c['opts'], 'kind': c['kind'], 'ev': [event_of(i, obs[i]) for i in IFACES if i in obs]}
+        obs = observe_all(c['req'], cj, c['opts'], c['kind'], can, c.get('resp'))
+        tr = {'req': c['req'], 'opts': c['opts'], 'kind': c['kind'], 'resp': c.get('resp'), 'ev': [event_of(i, obs[i]) for i in IFACES if i in obs]}
         v = ctx.judge('ServerIfaceTrace', [tr], workers=1)[0]
         print('verdict:', v)
         if v != 'ok':
